@@ -77,6 +77,12 @@ func (h *Handler) handleDiscover(p packet.DHCP4, options packet.DHCP4Options) (d
 		}
 	}
 
+	// a previous offer is only repeated while its address is still free: it may have been acknowledged to another
+	// client or appeared on the LAN since it was offered
+	if lease.State != StateAllocated && lease.IPOffer.IsValid() && !h.ipAvailable(lease, lease.IPOffer) {
+		lease.IPOffer = netip.Addr{}
+	}
+
 	if !lease.IPOffer.IsValid() {
 		if err := h.allocIPOffer(lease, reqIP); err != nil {
 			Logger.Msg("discover all ips allocated, failing silently").Error(err).Write()
